@@ -32,7 +32,8 @@ pub fn case_parse(s: &str) -> Option<RxCase> {
 const MODES: [SendMode; 3] = [SendMode::Unreliable, SendMode::Reliable, SendMode::Persistent];
 
 fn cfg_for(n: usize, wrap: bool) -> LwCfg {
-    LwCfg { pwin: n as u32, fwin: 64, pbase: if wrap { [0xFFFFE, 5] } else { [0, 77] }, fbase: if wrap { [0xFFFF_FFFD, 9] } else { [0, 1000] }, bw: [2_000_000, 2_000_000], ..LwCfg::small() }
+    // window sizes are powers of two: 4 packets fill their window exactly, 5 sit in a window of 8
+    LwCfg { pwin: (n as u32).next_power_of_two(), fwin: 64, pbase: if wrap { [0xFFFFE, 5] } else { [0, 77] }, fbase: if wrap { [0xFFFF_FFFD, 9] } else { [0, 1000] }, bw: [2_000_000, 2_000_000], ..LwCfg::small() }
 }
 
 /// The datagrams a real sender emits for the script (first occurrence of each packet), in packet order.
